@@ -353,7 +353,7 @@ func c16ParseOnce(dir string, rq c16Req) (rs c16Resp) {
 		return c16Resp{Class: "multi", Ast: B(c16SerModule(&tf.Module)), Wf: wf}
 	}
 	if cyc != "" {
-		return c16Resp{Class: "multi", Wf: wf}
+		return c16Resp{Class: "multi", Ast: B(c16SerModule(&tf.Module)), Wf: wf}
 	}
 	return c16Resp{Class: "ok", Ast: B(c16SerModule(&tf.Module)), Wf: wf, Deps: c16Deps(&tf.Module)}
 }
@@ -384,7 +384,52 @@ func c16GraphCycle(root *ast.TarsFile) string {
 		mark[n] = done
 		return ""
 	}
-	return walk(root)
+	if s := walk(root); s != "" {
+		return s
+	}
+	return c16GraphShape(root)
+}
+
+// c16GraphShape: the graph of one file with several (differently named) modules is the one of Idl/IncGraph.v
+// [children false]: the j-th further module's node N_j has as first child a node S_j that is not the file's own node
+// but carries the first module, with children N_1 .. N_{j-1}; then the included files; the file's node has N_1 .. N_k
+// and then the included files.
+func c16GraphShape(root *ast.TarsFile) string {
+	var further []*ast.TarsFile
+	names := map[string]bool{root.Module.Name: true}
+	for _, c := range root.IncTarsFile {
+		if c != nil && c.Source == root.Source {
+			if names[c.Module.Name] {
+				return "" // same module name again: merged into the earlier node, another shape
+			}
+			names[c.Module.Name] = true
+			further = append(further, c)
+		}
+	}
+	for j, n := range further {
+		if root.IncTarsFile[j] != n {
+			return fmt.Sprintf("include graph: the further modules are not the first children of the file's node (module %q)", n.Module.Name)
+		}
+		if len(n.IncTarsFile) == 0 {
+			return fmt.Sprintf("include graph: the node of module %q does not see the first module", n.Module.Name)
+		}
+		s := n.IncTarsFile[0]
+		if s == root {
+			return fmt.Sprintf("include graph: the node of module %q holds the file's live node instead of a copy of it", n.Module.Name)
+		}
+		if s.Module.Name != root.Module.Name || s.Source != root.Source {
+			return fmt.Sprintf("include graph: the first child of the node of module %q is not the first module", n.Module.Name)
+		}
+		if len(s.IncTarsFile) != j {
+			return fmt.Sprintf("include graph: the copy seen by module %q has %d children, %d further modules were recorded before it", n.Module.Name, len(s.IncTarsFile), j)
+		}
+		for i := 0; i < j; i++ {
+			if s.IncTarsFile[i] != further[i] {
+				return fmt.Sprintf("include graph: the copy seen by module %q does not list the further modules recorded before it", n.Module.Name)
+			}
+		}
+	}
+	return ""
 }
 
 // a further module of the same file is recorded like an included file, with the file's own source name
@@ -779,6 +824,8 @@ func c16Main(a Args) {
 			}
 			if strings.Contains(rs[i].Wf, "include graph has a cycle") {
 				sig = "tars2go/parse/include-graph-cyclic"
+			} else if strings.HasPrefix(rs[i].Wf, "include graph:") {
+				sig = "tars2go/parse/include-graph-shape"
 			}
 			res.Failures = append(res.Failures, Failure{Sig: sig, Desc: fmt.Sprintf("parse.NewParse (outcome %s) on %q: %s", c.Class, c16Trunc(string(c.Input), 200), rs[i].Wf), Replay: *c})
 		}
